@@ -27,7 +27,7 @@ func weightsFor(profile string) map[string]int {
 		"stake": 2, "oracle_round": 1, "byz_claim": 2, "node_restart": 1, "clock_jump": 2, "batch_race": 2, "gov": 1}
 	switch profile {
 	case "C05adv":
-		return map[string]int{"block": 20, "adv_event": 14, "user_send": 10, "req_batch": 4, "user_cancel": 2, "clock_jump": 2, "sign_all": 1, "huge_fees": 3}
+		return map[string]int{"block": 20, "adv_event": 14, "user_send": 10, "req_batch": 4, "user_cancel": 2, "clock_jump": 2, "sign_all": 1, "huge_fees": 3, "oracle_round": 4, "gov": 2}
 	case "C05size":
 		return map[string]int{"block": 10, "size_burst": 6, "poll_all": 8, "sign_all": 4, "relay": 4, "clock_jump": 3, "ext_deposit": 3, "ext_tick": 2}
 	case "C04", "C10", "C12", "C13":
@@ -572,7 +572,11 @@ func (g *Gen) oracleRound() {
 			if g.R.Intn(5) == 0 {
 				h = g.holderVals()
 			}
-			g.emit(Intent{T: "oracle_claim", V: v, Op: "holders", Vals: h, Net: g.net()})
+			hi := Intent{T: "oracle_claim", V: v, Op: "holders", Vals: h, Net: g.net()}
+			if g.R.Intn(12) == 0 {
+				hi.Mut = "nil_holders"
+			}
+			g.emit(hi)
 		}
 		if g.R.Intn(6) == 0 { // repeated claim by the same validator in the epoch
 			g.W.St.Fault("oracle_repeat_claim")
